@@ -377,6 +377,18 @@ func bareShapes() []*tbin.Shape {
 	}
 }
 
+// containerKeyShapes: maps whose KEYS are containers / structs (legal on the wire; generic readers must box them)
+func containerKeyShapes() []*tbin.Shape {
+	b := tbin.Sc(tbin.BOOL)
+	return []*tbin.Shape{
+		tbin.MapS(tbin.MapS(tbin.Sc(tbin.STRING), b), b),
+		tbin.MapS(tbin.MapS(tbin.Sc(tbin.I32), b), b),
+		tbin.MapS(tbin.ListS(tbin.Sc(tbin.I32)), tbin.Sc(tbin.I32)),
+		tbin.MapS(tbin.SetS(tbin.Sc(tbin.STRING)), tbin.Sc(tbin.BYTE)),
+		tbin.MapS(tbin.StructS(tbin.SF(1, tbin.Sc(tbin.I32))), tbin.Sc(tbin.I32)),
+	}
+}
+
 // allocSeeds: the dedicated seeds of the allocate-by-wire-size entry points.
 func allocSeeds(tier string) []*tseed {
 	s := []*tseed{
@@ -394,6 +406,9 @@ func allocSeeds(tier string) []*tseed {
 		bareSeed(tbin.ListS(tbin.Sc(tbin.BOOL)), 1),
 		bareSeed(tbin.ListS(tbin.StructS(tbin.SF(1, tbin.Sc(tbin.I32)))), 1),
 		bareSeed(tbin.SetS(tbin.Sc(tbin.I64)), 1),
+	}
+	for _, sh := range containerKeyShapes() {
+		s = append(s, bareSeed(sh, 1))
 	}
 	if tier == "thorough" {
 		s = append(s, wrapSeed(tbin.ListS(tbin.ListS(tbin.Sc(tbin.STRING))), 1))
